@@ -49,9 +49,24 @@ public:
 		doSort();
 	}
 
-	void splice(const_iterator pos, OrderedQueueList & other, const_iterator it) {
-		super::splice(pos, other, it);
-		doSort();
+	void splice(const_iterator /*pos*/, OrderedQueueList & other, const_iterator it) {
+		// Find the place of *it first and splice afterwards: the comparisons may throw,
+		// and then neither list has been changed (strong exception safety, EventQueue::enqueue
+		// relies on it). On a sorted list this gives the same order as splicing at the end
+		// and stable sorting, which is what doSort does.
+		auto compare = Compare();
+		const_iterator target = super::begin();
+		while(target != super::end()) {
+			// Same order as in doSort: empty (recycled) items first.
+			const bool less = (it->empty() || target->empty())
+				? (it->empty() && ! target->empty())
+				: compare(it->get(), target->get());
+			if(less) {
+				break;
+			}
+			++target;
+		}
+		super::splice(target, other, it);
 	}
 
 private:
